@@ -618,6 +618,12 @@ def run(ck):
         "C05: goroutines classed CoverBackground (timers, metrics, log shipping, cache reset, watchdog) never receive request data: by reading, not proved; "
         "net/http recovers the handler goroutine; Go runtime scheduling/preemption; crash/hang detection by child process + deadline + goroutine census",
         "C05: retry.Do (avast/retry-go) with the configured attempts terminates; ch-go column Append semantics (ColFixedStr.Append panics on width mismatch) as read",
+        "C05 (model/IngestPipe.v): the decoders are ORACLES (any responses flushed through the handlers, then nil / any error / panic); what an oracle cannot do "
+        "is touch the channel itself or keep running after Decode returned. Go's semantics of panic/recover/defer, close and send on a closed channel, and the "
+        "rendezvous of an unbuffered channel as interpreted by run_prog / sys_run (compared with the real runtime by harness pipefuzz on scripted decoders)",
+        "C05: reasons on the allow-lists of panic-capable expressions outside the recover scopes (site_allow_list), of the non-literal onEntries call sites "
+        "(entries_call_allow) and the static types of the stored context values (ctx_writers_model) are by reading; the inventories themselves are regenerated "
+        "and compared on every run. Open finding decompression-amplification (findings.d/C05.txt)",
     ]
     okgen = run_translator(ck)
     if okgen:
